@@ -342,8 +342,10 @@ class Dipole(Wire):
                 # Store original input.
                 self._coordinates = coordinates
 
-            # Ensure the two poles are distinct.
-            if np.allclose(points[0, :], points[1, :]):
+            # Ensure the two poles are distinct. Absolute tolerance (1 nm); a
+            # tolerance relative to the coordinates rejects valid dipoles in
+            # projected coordinates (x ~ 5e5, y ~ 6e6).
+            if np.allclose(points[0, :], points[1, :], rtol=0, atol=1e-9):
                 raise ValueError(
                     "The two electrodes are identical, use the format "
                     "(x, y, z, azimuth, elevation) instead. "
